@@ -2082,6 +2082,7 @@ fn oracle_combo<C: ChainPrec>(rng: &mut Rng, bps: &[(u32, Vec<u32>)], iters: usi
             rep.count("C13.data_with_zero_word");
         }
         let mut desc = describe::<C>(p0, from_bin, &data);
+        crate::util::set_case(&desc);
         let made = guarded(|| C::ctor(if from_bin { 0 } else { 1 }, p0, words::<C::W>(&data)).unwrap());
         rep.eval("C10");
                 rep.eval("C20"); // would abort on a std UB check (new_unchecked(0)) in this build
@@ -2118,6 +2119,7 @@ fn oracle_combo<C: ChainPrec>(rng: &mut Rng, bps: &[(u32, Vec<u32>)], iters: usi
                 let b = g.b(rng, p);
                 let cdf = g.cdf(rng, p);
                 desc.push_str(&format!(" | dec {:x} {:x} {}", p, b, show_list(cdf.clone())));
+                crate::util::set_case(&desc);
                 let before = d.clone();
                 rep.eval("C10");
                 rep.eval("C20"); // would abort on a std UB check (new_unchecked(0)) in this build
@@ -2156,6 +2158,7 @@ fn oracle_combo<C: ChainPrec>(rng: &mut Rng, bps: &[(u32, Vec<u32>)], iters: usi
                     _ => 2,
                 };
                 desc.push_str(&format!(" | {} {:x}", kind, q));
+                crate::util::set_case(&desc);
                 let before = d.clone();
                 let old = d.p;
                 rep.eval("C20");
@@ -2203,11 +2206,13 @@ fn oracle_combo<C: ChainPrec>(rng: &mut Rng, bps: &[(u32, Vec<u32>)], iters: usi
         }
         for way in 0..3u32 {
             let mut wdesc = desc.clone();
+            crate::util::set_case(&wdesc);
             let (mut e, stash): (Dyn<C::W, C::S>, Vec<u128>) = match way {
                 0 => (d.clone(), vec![]),
                 _ => {
                     let src: Vec<u128> = if way == 1 { suffix.clone() } else { prefix.iter().chain(suffix.iter()).copied().collect() };
                     wdesc.push_str(&format!(" | reimport {}", way));
+                    crate::util::set_case(&wdesc);
                     match guarded(|| C::ctor(2, d.p, words::<C::W>(&src)).unwrap()) {
                         Ok(Ok(e)) => (e, if way == 1 { prefix.clone() } else { vec![] }),
                         _ => {
@@ -2235,6 +2240,7 @@ fn oracle_combo<C: ChainPrec>(rng: &mut Rng, bps: &[(u32, Vec<u32>)], iters: usi
                             }
                         }
                         wdesc.push_str(" | undo");
+                        crate::util::set_case(&wdesc);
                         rep.eval("C20");
                         let o = guarded(|| C::enc_sym(&mut e, *b, cdf, *sym).unwrap());
                         if o != Ok("ok".to_string()) {
@@ -2245,6 +2251,7 @@ fn oracle_combo<C: ChainPrec>(rng: &mut Rng, bps: &[(u32, Vec<u32>)], iters: usi
                     }
                     Step::Prec { old } => {
                         wdesc.push_str(" | undo");
+                        crate::util::set_case(&wdesc);
                         let o = guarded(|| C::cp(&mut e, 0, *old).unwrap());
                         if o != Ok("ok".to_string()) {
                             rep.fail("C13", format!("{} => reverting the precision returned {:?}", wdesc, o));
@@ -2258,6 +2265,7 @@ fn oracle_combo<C: ChainPrec>(rng: &mut Rng, bps: &[(u32, Vec<u32>)], iters: usi
                 continue;
             }
             wdesc.push_str(if from_bin { " | final bin" } else { " | final comp" });
+            crate::util::set_case(&wdesc);
             let fin = guarded(|| if from_bin { C::into_bin(&e).unwrap() } else { C::into_comp(&e).unwrap() });
             rep.eval("C13");
             rep.eval("C20");
